@@ -10,14 +10,16 @@ Require Import V.lib.Bytes V.models.AssertCheck V.proofs.AssertCheckProofs.
 Open Scope Z_scope.
 
 (* Full statement of the first sentence of C18, for any clock bounds: an accepted assertion has a supported format and
-   there is a key - the first hit for its sign-key id, trusted before stored - that belongs to the declared authority,
+   there is a key - the one in the FIRST layer (trusted, predefined, own backstore, stacked-on backstores, in this order)
+   that holds its sign-key id - that belongs to the declared authority,
    passes the expiry check, is valid at the assertion's timestamp (if any), admits the assertion by its constraints, and
    `verify` holds for that key on exactly the assertion's content and signature core (the OpenPGP signature packet
    with its unhashed subpacket area emptied - what verification reads). *)
-Theorem C18_accept_implies_partial : forall verify tr st e l a, check verify tr st e l a = true ->
+Theorem C18_accept_implies_partial : forall verify layers e l a, check verify layers e l a = true ->
   a_supported a = true /\
-  exists k, find_key tr st (a_sign_key a) = Some k /\
-    (In k tr \/ (find (has_id (a_sign_key a)) tr = None /\ In k st)) /\
+  exists k, find_key layers (a_sign_key a) = Some k /\
+    (exists before ly after, layers = before ++ ly :: after /\ In k ly /\
+       forall l', In l' before -> find (has_id (a_sign_key a)) l' = None) /\
     k_id k = a_sign_key a /\ k_account k = a_authority a /\
     valid_assuming k e l = true /\
     (forall t, a_timestamp a = Some t -> valid_at k t = true) /\
@@ -27,8 +29,8 @@ Proof. exact accept_implies. Qed.
 Print Assumptions C18_accept_implies_partial.
 
 (* with the system clock (no earliest-time override): the key is valid now, since <= now < until *)
-Theorem C18_accept_now_partial : forall verify tr st now a, check_now verify tr st now a = true ->
-  exists k, find_key tr st (a_sign_key a) = Some k /\ k_account k = a_authority a /\
+Theorem C18_accept_now_partial : forall verify layers now a, check_now verify layers now a = true ->
+  exists k, find_key layers (a_sign_key a) = Some k /\ k_account k = a_authority a /\
     k_since k <= now /\ (forall u, k_until k = Some u -> now < u) /\
     (forall t, a_timestamp a = Some t -> k_since k <= t /\ forall u, k_until k = Some u -> t < u) /\
     can_sign k a = true /\ verify (a_sign_key a) (a_content a) (a_sig_core a) = true.
@@ -66,29 +68,45 @@ Proof. exact valid_assuming_earliest. Qed.
 Print Assumptions C18_expiry_check_earliest.
 
 (* refusals by cause *)
-Theorem C18_unknown_key_rejected : forall verify tr st e l a,
-  find_key tr st (a_sign_key a) = None -> check verify tr st e l a = false.
+Theorem C18_unknown_key_rejected : forall verify layers e l a,
+  find_key layers (a_sign_key a) = None -> check verify layers e l a = false.
 Proof. exact unknown_key_rejected. Qed.
 Print Assumptions C18_unknown_key_rejected.
 
-Theorem C18_other_authority_rejected : forall verify tr st e l a k, find_key tr st (a_sign_key a) = Some k ->
-  k_account k <> a_authority a -> check verify tr st e l a = false.
+Theorem C18_other_authority_rejected : forall verify layers e l a k, find_key layers (a_sign_key a) = Some k ->
+  k_account k <> a_authority a -> check verify layers e l a = false.
 Proof. exact other_authority_rejected. Qed.
 Print Assumptions C18_other_authority_rejected.
 
-Theorem C18_expired_rejected : forall verify tr st now a k u, find_key tr st (a_sign_key a) = Some k ->
-  k_until k = Some u -> u <= now -> check_now verify tr st now a = false.
+Theorem C18_expired_rejected : forall verify layers now a k u, find_key layers (a_sign_key a) = Some k ->
+  k_until k = Some u -> u <= now -> check_now verify layers now a = false.
 Proof. exact expired_rejected. Qed.
 Print Assumptions C18_expired_rejected.
 
-Theorem C18_not_yet_valid_rejected : forall verify tr st now a k, find_key tr st (a_sign_key a) = Some k ->
-  now < k_since k -> check_now verify tr st now a = false.
+Theorem C18_not_yet_valid_rejected : forall verify layers now a k, find_key layers (a_sign_key a) = Some k ->
+  now < k_since k -> check_now verify layers now a = false.
 Proof. exact not_yet_valid_rejected. Qed.
 Print Assumptions C18_not_yet_valid_rejected.
 
-(* a trusted key shadows stored keys with the same id *)
-Theorem C18_trusted_first : forall tr st st' kid k,
-  find (has_id kid) tr = Some k -> find_key tr st kid = find_key tr st' kid.
+(* The FIRST layer that holds the key id decides - layer order: trusted, predefined, the database's own backstore, then
+   the backstores it is stacked on (WithStackedBackstore). Whatever later layers hold (an older, still valid revision of
+   the same account-key; nothing) the same key is used, and the verdict of Check is the same. So a newer revision that
+   expires, re-scopes or constrains a key cannot be bypassed through an older revision left in a later layer. *)
+Theorem C18_first_layer_decides : forall before l after after' kid k,
+  (forall l', In l' before -> find (has_id kid) l' = None) -> find (has_id kid) l = Some k ->
+  find_key (before ++ l :: after) kid = Some k /\ find_key (before ++ l :: after') kid = Some k.
+Proof. exact first_layer_decides. Qed.
+Print Assumptions C18_first_layer_decides.
+
+Theorem C18_later_layers_ignored : forall verify before ly after after' e l a k,
+  (forall l', In l' before -> find (has_id (a_sign_key a)) l' = None) -> find (has_id (a_sign_key a)) ly = Some k ->
+  check verify (before ++ ly :: after) e l a = check verify (before ++ ly :: after') e l a.
+Proof. exact later_layers_ignored. Qed.
+Print Assumptions C18_later_layers_ignored.
+
+(* special case: a trusted key shadows every other layer *)
+Theorem C18_trusted_first : forall tr rest rest' kid k, find (has_id kid) tr = Some k ->
+  find_key (tr :: rest) kid = Some k /\ find_key (tr :: rest') kid = Some k.
 Proof. exact trusted_first. Qed.
 Print Assumptions C18_trusted_first.
 
@@ -101,7 +119,7 @@ Print Assumptions C18_trusted_first.
    the real code for byte and structural mutations). *)
 Theorem C18_any_mutation_rejected_partial : forall verify (G : list (bytes * bytes * bytes)),
   (forall kid c s, verify kid c s = true -> In (kid, c, s) G) ->
-  forall tr st e l a, ~ In (a_sign_key a, a_content a, a_sig_core a) G -> check verify tr st e l a = false.
+  forall layers e l a, ~ In (a_sign_key a, a_content a, a_sig_core a) G -> check verify layers e l a = false.
 Proof. exact mutation_rejected_gen. Qed.
 Print Assumptions C18_any_mutation_rejected_partial.
 
@@ -110,20 +128,20 @@ Print Assumptions C18_any_mutation_rejected_partial.
    of the OpenPGP packet, which the signature hash does not cover) can be changed freely. KNOWN_FINDINGS key
    sig-unhashed-subpacket; the driver adds an unhashed private-use subpacket to a genuine signature and the real
    Database.Check / Add accept the result on every run. *)
-Theorem C18_decoded_signature_mutation_refuted : exists verify tr st now a a',
+Theorem C18_decoded_signature_mutation_refuted : exists verify layers now a a',
   a_sig a' <> a_sig a /\ a_content a' = a_content a /\
-  check_now verify tr st now a = true /\ check_now verify tr st now a' = true.
+  check_now verify layers now a = true /\ check_now verify layers now a' = true.
 Proof.
-  exists (ideal_verify (bs "KEYID", bs "content", bs "core")), [], [mkKey (bs "KEYID") (bs "brand") 100 (Some 200) []], 150,
+  exists (ideal_verify (bs "KEYID", bs "content", bs "core")), [[]; [mkKey (bs "KEYID") (bs "brand") 100 (Some 200) []]], 150,
     (mkA true (bs "brand") (bs "KEYID") None [] (bs "content") (bs "sig") (bs "core")),
     (mkA true (bs "brand") (bs "KEYID") None [] (bs "content") (bs "sig+unhashed") (bs "core")).
   repeat split. discriminate.
 Qed.
 Print Assumptions C18_decoded_signature_mutation_refuted.
 
-Theorem C18_sig_outside_core_ignored : forall verify tr st e l a s',
-  check verify tr st e l (mkA (a_supported a) (a_authority a) (a_sign_key a) (a_timestamp a) (a_headers a) (a_content a) s' (a_sig_core a))
-  = check verify tr st e l a.
+Theorem C18_sig_outside_core_ignored : forall verify layers e l a s',
+  check verify layers e l (mkA (a_supported a) (a_authority a) (a_sign_key a) (a_timestamp a) (a_headers a) (a_content a) s' (a_sig_core a))
+  = check verify layers e l a.
 Proof. exact sig_outside_core_ignored. Qed.
 Print Assumptions C18_sig_outside_core_ignored.
 
@@ -137,13 +155,18 @@ Definition ex_key := mkKey (bs "KEYID") (bs "brand") 100 (Some 200) [[(bs "type"
 Definition ex_a := mkA true (bs "brand") (bs "KEYID") (Some 150) [(bs "type", bs "model"); (bs "model", bs "m1")]
                        (bs "content") (bs "sig") (bs "sig").
 Definition ex_signed := (bs "KEYID", bs "content", bs "sig").
-Example C18_ex_accepted : check_now (ideal_verify ex_signed) [] [ex_key] 199 ex_a = true.
+Example C18_ex_accepted : check_now (ideal_verify ex_signed) [[]; [ex_key]] 199 ex_a = true.
 Proof. reflexivity. Qed.
-Example C18_ex_expired : check_now (ideal_verify ex_signed) [] [ex_key] 200 ex_a = false.
+Example C18_ex_expired : check_now (ideal_verify ex_signed) [[]; [ex_key]] 200 ex_a = false.
 Proof. reflexivity. Qed.
-Example C18_ex_mutated : check_now (ideal_verify ex_signed) [] [ex_key] 199
+Example C18_ex_mutated : check_now (ideal_verify ex_signed) [[]; [ex_key]] 199
   (mkA true (bs "brand") (bs "KEYID") (Some 150) [(bs "type", bs "model"); (bs "model", bs "m1")] (bs "contenT") (bs "sig") (bs "sig")) = false.
 Proof. reflexivity. Qed.
-Example C18_ex_constraint : check_now (ideal_verify ex_signed) [] [ex_key] 199
+(* a newer, expired revision of the key in the trusted layer wins over the older valid revision still stored *)
+Definition ex_key_expired := mkKey (bs "KEYID") (bs "brand") 100 (Some 120) [].
+Example C18_ex_layers : check_now (ideal_verify ex_signed) [[ex_key_expired]; []; [ex_key]] 199 ex_a = false /\
+                        check_now (ideal_verify ex_signed) [[]; []; [ex_key]] 199 ex_a = true.
+Proof. split; reflexivity. Qed.
+Example C18_ex_constraint : check_now (ideal_verify ex_signed) [[]; [ex_key]] 199
   (mkA true (bs "brand") (bs "KEYID") (Some 150) [(bs "type", bs "model"); (bs "model", bs "m2")] (bs "content") (bs "sig") (bs "sig")) = false.
 Proof. reflexivity. Qed.
